@@ -59,22 +59,31 @@ func registryCase(n, order int) (steps int, v *drv.Violation) {
 	}
 	var ents []ent
 	ids := make([]ecs.ID, 0, n)
+	var resSeen []ecs.ResID
 	for i := 0; i < n; i++ {
 		steps++
 		var id ecs.ID
 		if tryDo(func() { id = ecs.TypeID(w, typeOf(i)) }) {
 			return fail("registering type #%d (of max %d) panicked", i+1, MaxComps)
 		}
-		if int(id.Index()) != i {
-			return fail("type #%d got ID %d, expected sequential ID %d", i, id.Index(), i)
+		for j, old := range ids {
+			if old == id {
+				return fail("type #%d got ID %d, which type #%d already has", i, id.Index(), j)
+			}
 		}
 		ids = append(ids, id)
 		if order == 2 && i%7 == 3 {
 			// interleave: resources have their own registry; entities use the newest ID
 			rid := ecs.ResourceTypeID(w, typeOf(i))
-			if int(rid.Index()) != i/7 {
-				return fail("resource type %d got ID %d, expected %d", i, rid.Index(), i/7)
+			if rid2 := ecs.ResourceTypeID(w, typeOf(i)); rid2 != rid {
+				return fail("resource type %d maps to ID %d and then to ID %d", i, rid.Index(), rid2.Index())
 			}
+			for _, prev := range resSeen {
+				if prev == rid {
+					return fail("two resource types share ID %d", rid.Index())
+				}
+			}
+			resSeen = append(resSeen, rid)
 			var e ecs.Entity
 			if tryDo(func() { e = w.Unsafe().NewEntity(id) }) {
 				return fail("creating an entity with the newest ID %d panicked (%d types registered)", i, i+1)
@@ -97,9 +106,13 @@ func registryCase(n, order int) (steps int, v *drv.Violation) {
 	if len(all) != n {
 		return fail("ComponentIDs has %d entries, %d types registered", len(all), n)
 	}
-	for i, id := range all {
-		if int(id.Index()) != i {
-			return fail("ComponentIDs[%d] = %d", i, id.Index())
+	for _, id := range ids {
+		found := false
+		for _, a := range all {
+			found = found || a == id
+		}
+		if !found {
+			return fail("ComponentIDs does not list ID %d", id.Index())
 		}
 	}
 	if n < MaxComps {
@@ -114,8 +127,10 @@ func registryCase(n, order int) (steps int, v *drv.Violation) {
 	var relID ecs.ID
 	if relLast {
 		relID = ecs.ComponentID[relDummy](w)
-		if int(relID.Index()) != n {
-			return fail("relation type registered as #%d got ID %d", n, relID.Index())
+		for _, old := range ids {
+			if old == relID {
+				return fail("relation type registered as #%d got the used ID %d", n, relID.Index())
+			}
 		}
 		ids = append(ids, relID)
 		n++
@@ -159,8 +174,13 @@ func registryCase(n, order int) (steps int, v *drv.Violation) {
 		if tryDo(func() { id = ecs.TypeID(w, extra) }) {
 			return fail("registering type #%d after a rejected registration panicked", n+1)
 		}
-		if int(id.Index()) != n {
-			return fail("type registered after a rejected registration got ID %d, expected %d (an ID was consumed)", id.Index(), n)
+		for _, old := range ids {
+			if old == id {
+				return fail("type registered after a rejected registration got the used ID %d", id.Index())
+			}
+		}
+		if got := len(ecs.ComponentIDs(w)); got != n+1 {
+			return fail("after a rejected and a successful registration %d IDs are in use, expected %d (an ID was consumed)", got, n+1)
 		}
 		ids = append(ids, id)
 		n++
@@ -396,7 +416,7 @@ func init() {
 			NonTrivial: func(x *drv.World) bool { return x.M.Res != [4]int64{} },
 		}
 		chk := &Check{ID: "C18", Scenarios: []*engine.Scenario{sc},
-			Rule: fmt.Sprintf("registry: for n in {0,1,2,62,63,64,65,127,128,191,192,254,255,256} (<= %d in this build) x 3 registration orders (ascending, other types, interleaved with resource registration and entity creation): IDs sequential, stable, injective; ComponentIDs/ComponentInfo/TypeID agree; registration on a locked world panics and consumes no ID; registration max+1 panics; every boundary ID (at n=max: every single ID), boundary pairs, 4- and 8-ID sets across all mask words are used in entities (values written and read back), exclusive filters, filters with exclusions and queries; the same sweep is run in a binary built with -tags ark_tiny (max 64). resources: all Add/Remove/Reset histories over 3 resource types up to depth %d against a map, with rejected duplicate Add / absent Remove at every node; non-trivial = >=1 resource present", MaxComps, d),
+			Rule: fmt.Sprintf("registry: for n in {0,1,2,62,63,64,65,127,128,191,192,254,255,256} (<= %d in this build) x 3 registration orders (ascending, other types, interleaved with resource registration and entity creation): IDs stable and injective; ComponentIDs/ComponentInfo/TypeID agree; registration on a locked world panics and consumes no ID; registration max+1 panics; every boundary ID (at n=max: every single ID), boundary pairs, 4- and 8-ID sets across all mask words are used in entities (values written and read back), exclusive filters, filters with exclusions and queries; the same sweep is run in a binary built with -tags ark_tiny (max 64). resources: all Add/Remove/Reset histories over 3 resource types up to depth %d against a map, with rejected duplicate Add / absent Remove at every node; non-trivial = >=1 resource present", MaxComps, d),
 		}
 		chk.Special = func(tier Tier, rep *engine.Report) error {
 			cases, steps, found := RegistrySweep()
